@@ -75,12 +75,34 @@ def main():
         return True
 
     # a watchdog thread turns a hang into a recorded, classifiable outcome
+    def dead_workers():
+        """Task wrappers that ended although stop() was never requested."""
+        dead = []
+        for t in (runner._tasks or []):
+            if t.done():
+                try:
+                    exc = t.exception()
+                except BaseException as e:  # cancelled
+                    exc = e
+                dead.append(repr(exc))
+        return dead
+
     def watchdog():
         while time.time() < deadline:
             time.sleep(0.2)
             if out.get("finished"):
                 return
+            if out.get("phase") != "stopping":
+                dead = dead_workers()
+                if dead and len(dead) == len(runner._tasks or []):
+                    # logical, not wall-clock: nobody is left to execute
+                    # the queued units
+                    out["all_workers_dead"] = dead
+                    out["queue_left"] = runner._queue.qsize()
+                    _dump(out)
+                    os._exit(4)
         out["hang"] = True
+        out["dead_workers"] = dead_workers()
         _dump(out)
         os._exit(3)
 
@@ -113,6 +135,7 @@ def main():
                     break
         while consume():
             pass
+    out["dead_workers"] = dead_workers()
     out["phase"] = "stopping"
     t0 = time.time()
     try:
